@@ -3,8 +3,12 @@ package harness
 import (
 	"bytes"
 	"fmt"
+	"net/http"
+	"runtime"
 	"strings"
+	"sync/atomic"
 	"testing"
+	"time"
 
 	"github.com/jub0bs/cors"
 	"github.com/jub0bs/cors/cfgerrors"
@@ -333,4 +337,195 @@ func FuzzServe(f *testing.F) {
 			t.Fatalf("%s", d.Msg)
 		}
 	})
+}
+
+// ---------------------------------------------------------------------------
+// every call returns: histories of API calls on one middleware, with a watchdog
+
+type C17Step struct {
+	Op  string `json:"op"` // debug | reconf_nil | reconf_valid | reconf_junk | reconf_config | config | serve
+	On  bool   `json:"on,omitempty"`
+	Cfg *Cfg   `json:"cfg,omitempty"`
+	Req *Req   `json:"req,omitempty"`
+}
+
+type C17Hist struct {
+	Start *Cfg      `json:"start"` // nil = zero-value middleware
+	Steps []C17Step `json:"steps"`
+}
+
+func (c C17Hist) Brief() any {
+	ops := make([]string, len(c.Steps))
+	for i, s := range c.Steps {
+		ops[i] = s.Op
+		if s.Op == "debug" {
+			ops[i] = fmt.Sprintf("debug(%v)", s.On)
+		}
+	}
+	return map[string]any{"start": c.Start, "ops": ops}
+}
+
+func c17HistGen(t *rapid.T) C17Hist {
+	var c C17Hist
+	if chance(t, "configured", 75) {
+		v := genValidCfg(t)
+		c.Start = &v
+	}
+	cur := Cfg{Origins: SS("https://example.com")}
+	if c.Start != nil {
+		cur = *c.Start
+	}
+	for i, n := 0, intIn(t, "nsteps", 2, 12); i < n; i++ {
+		switch k := uniform(t, "op", 100); {
+		case k < 25:
+			c.Steps = append(c.Steps, C17Step{Op: "debug", On: chance(t, "on", 60)})
+		case k < 37:
+			c.Steps = append(c.Steps, C17Step{Op: "reconf_nil"})
+		case k < 50:
+			v := genValidCfg(t)
+			cur = v
+			c.Steps = append(c.Steps, C17Step{Op: "reconf_valid", Cfg: &v})
+		case k < 58:
+			j := genJunkCfg(t)
+			c.Steps = append(c.Steps, C17Step{Op: "reconf_junk", Cfg: &j})
+		case k < 66:
+			c.Steps = append(c.Steps, C17Step{Op: "reconf_config"})
+		case k < 78:
+			c.Steps = append(c.Steps, C17Step{Op: "config"})
+		default:
+			r := genReq(t, poolsOf(cur))
+			c.Steps = append(c.Steps, C17Step{Op: "serve", Req: &r})
+		}
+	}
+	return c
+}
+
+var blockedStates = []string{"sync.RWMutex.Lock", "sync.RWMutex.RLock", "sync.Mutex.Lock", "semacquire", "chan receive", "chan send", "select", "sync.Cond.Wait", "sync.WaitGroup.Wait"}
+
+// goroutineState returns the scheduler state and the stack of the goroutine
+// whose stack mentions marker ("" if there is none).
+func goroutineState(marker string) (state, stack string) {
+	buf := make([]byte, 1<<20)
+	buf = buf[:runtime.Stack(buf, true)]
+	for _, g := range strings.Split(string(buf), "\n\n") {
+		if !strings.Contains(g, marker) {
+			continue
+		}
+		head, _, _ := strings.Cut(g, "\n")
+		if i, j := strings.IndexByte(head, '['), strings.LastIndexByte(head, ']'); i >= 0 && j > i {
+			state = head[i+1 : j]
+			if k := strings.IndexByte(state, ','); k >= 0 {
+				state = state[:k] // drop ", 2 minutes" and the like
+			}
+		}
+		return state, g
+	}
+	return "", ""
+}
+
+// c17HistoryWorker runs the history; its name is what the watchdog looks for.
+func c17HistoryWorker(c C17Hist, progress *atomic.Int32, done chan<- *Disc) {
+	done <- safely(func() *Disc {
+		var m *cors.Middleware
+		if c.Start == nil {
+			m = new(cors.Middleware)
+		} else {
+			var err error
+			if m, err = cors.NewMiddleware(c.Start.Cors()); err != nil {
+				return nil
+			}
+		}
+		h := m.Wrap(http.HandlerFunc(func(w http.ResponseWriter, r *http.Request) {
+			m.Config() // a wrapped handler may call back into the middleware
+			w.WriteHeader(200)
+		}))
+		for i, s := range c.Steps {
+			progress.Store(int32(i))
+			switch s.Op {
+			case "debug":
+				m.SetDebug(s.On)
+			case "reconf_nil":
+				m.Reconfigure(nil)
+			case "reconf_valid", "reconf_junk":
+				if s.Cfg != nil {
+					x := s.Cfg.Cors()
+					m.Reconfigure(&x)
+				}
+			case "reconf_config":
+				m.Reconfigure(m.Config())
+			case "config":
+				m.Config()
+			case "serve":
+				if s.Req != nil {
+					h.ServeHTTP(NewRec(nil), s.Req.HTTP())
+				}
+			}
+		}
+		progress.Store(int32(len(c.Steps)))
+		return nil
+	})
+}
+
+func c17HistCheck(c C17Hist, rec *Recorder) *Disc {
+	var progress atomic.Int32
+	done := make(chan *Disc, 1)
+	go c17HistoryWorker(c, &progress, done)
+	rec.Eval(len(c.Steps))
+	debugThenNil := false
+	on := false
+	for _, s := range c.Steps {
+		if s.Op == "debug" {
+			on = s.On
+		}
+		if s.Op == "reconf_nil" && on {
+			debugThenNil = true
+		}
+		if s.Op == "reconf_nil" || s.Op == "reconf_valid" {
+			on = on && s.Op != "reconf_nil"
+		}
+	}
+	if debugThenNil || len(c.Steps) >= 6 {
+		rec.NonTrivialHash(h64(fmt.Sprintf("%+v", c)))
+	}
+	deadline := time.After(3 * time.Second)
+	for {
+		select {
+		case d := <-done:
+			return d
+		case <-deadline:
+			// not back after 3 s (a history takes well under a millisecond): blocked for good, or just slow?
+			s1, st1 := goroutineState("c17HistoryWorker")
+			at := progress.Load()
+			time.Sleep(300 * time.Millisecond)
+			s2, _ := goroutineState("c17HistoryWorker")
+			blocked := false
+			for _, b := range blockedStates {
+				if s1 == b && s2 == b && progress.Load() == at {
+					blocked = true
+				}
+			}
+			if !blocked {
+				rec.Class("not-judged-slow")
+				select {
+				case d := <-done:
+					return d
+				case <-time.After(60 * time.Second):
+					return nil
+				}
+			}
+			op := "?"
+			if int(at) < len(c.Steps) {
+				op = c.Steps[at].Op
+			}
+			return discf("call #%d (%s) of the history never returns: the only goroutine using this middleware is blocked in state [%s] (nothing else holds its lock):\n%s", at, op, s1, abbrev(st1, 1500))
+		}
+	}
+}
+
+func TestC17Hist(t *testing.T) {
+	Prop[C17Hist]{ID: "C17", Part: "calls-return", Gen: c17HistGen, Check: c17HistCheck,
+		Rule: "calls return: history of 2-12 calls on one middleware (zero value or any valid configuration): SetDebug(b), Reconfigure(nil | valid | junk | its own Config()), Config(), a request through a wrapped handler that itself calls Config(); run on a worker goroutine under a watchdog. " +
+			"Oracle: no panic, and the worker comes back; if it has not after 3 s, its scheduler state is read twice 300 ms apart: blocked on a lock/channel at the same call both times (no other goroutine uses that middleware) = a call that never returns; still running = slow, not judged. " +
+			"non-trivial = history with Reconfigure(nil) while debug is on, or >= 6 calls; distinct by history.",
+		Assumptions: []string{"a goroutine that is the only user of a middleware and sits in a lock-wait state for 3 s is deadlocked, not slow; a goroutine still running after 3 s is never a verdict"}}.Run(t)
 }
